@@ -74,7 +74,7 @@ def _get_laplace_matrix(bcs: BoundariesList) -> tuple[NumericArray, NumericArray
                 matrix[i, k] += v * factor
 
         else:
-            matrix[i, i + 1] = scale + scale_i
+            matrix[i, i + 1] += scale + scale_i
 
     return matrix, vector  # type: ignore
 
